@@ -199,7 +199,7 @@ def _job(a):
     runs = parse_runs(p.stdout.decode(errors='replace'))
     res = []
     if len(runs) != len(lines):
-        return [('harness', lines[0], 'drvmc batch returned %d runs for %d lines' % (len(runs), len(lines)), '')]
+        return [('harness', lines[0], 'drvmc batch returned %d runs for %d lines' % (len(runs), len(lines)))]
     nst = set()
     for l, r in zip(lines, runs):
         c = compare(l, triple, r)
@@ -276,7 +276,8 @@ def main(chk):
     for res in fs.pimap(_job, jobs):
         for c, l, sig in res:
             if c == 'harness':
-                raise RuntimeError(sig)
+                from ..runner import SubjectFailure
+                raise SubjectFailure('world/batch-incomplete', 'the driver under the simulated world did not complete a batch of command lines (first: %r): %s' % (l, sig))
             n += 1
             sigs.add(sig)
             states.add(sig[0])
